@@ -287,6 +287,38 @@ def T_call_name(call):
     return None
 
 
+def _labels_travel_with_votes(fi, cfg, rd):
+    """find the gathers  L[i]  whose index comes from the argsort ranking
+    and L is a 1-d label list; check the provenance of L"""
+    labels = []
+    for n in ast.walk(fi.node):
+        if isinstance(n, ast.Subscript) and isinstance(
+                n.value, ast.Name) and isinstance(n.ctx, ast.Load) \
+                and not isinstance(n.slice, (ast.Tuple, ast.Slice)):
+            ns = [x for x in cfg.node_of_expr(n) if x.id in rd.live]
+            if not ns:
+                continue
+            sl = backward_slice(fi, n.slice, ns[0].id)
+            if not sl.has_call('argsort'):
+                continue
+            labels.append((n, ns[0].id))
+    if not labels:
+        return False, 'no label lookup by ranking position found'
+    for (n, nid) in labels:
+        for d in rd.reaching(n.value.id, nid):
+            if d.kind == 'param':
+                continue
+            v = getattr(d, 'value', None)
+            if isinstance(v, ast.Call) and d.path and T_call_name(
+                    v) == 'aggregate_votes' and d.path[0] == 2:
+                # the vote table of the same call must be the one ranked
+                continue
+            return False, (f'`{n.value.id}` can be '
+                           f'`{unparse(v)[:50] if v is not None else d.kind}`'
+                           ' where it names the ranked columns')
+    return True, ''
+
+
 def check_ranking(ctx):
     """choose_node ranks candidates per cell: argsort along axis 1 of the
     (cell, candidate) votes, reversed, winner = column 0"""
@@ -341,6 +373,16 @@ def check_ranking(ctx):
                 sl = backward_slice(fi, g.iter.value, node.id)
                 if sl.has_call('argsort'):
                     winner_ok = True
+    # the labels the ranking is translated with travel with the vote
+    # table: on every path they are either the caller's list (votes as
+    # tallied) or element 2 of the aggregate_votes call whose element 0 is
+    # the vote table
+    label_ok, label_detail = _labels_travel_with_votes(fi, cfg, rd)
+    ctx.ob(rule, 'choose_node:labels', fi.loc(), label_ok,
+           'winner and runner-up names are read from the label list that '
+           'belongs to the ranked vote table' if label_ok else
+           'the list that names the columns of the vote table is not the '
+           'one that came with it: ' + label_detail)
     ctx.ob(rule, 'choose_node:winner', fi.loc(), winner_ok,
            'the winner is the type in column 0 of the per-cell ranking'
            if winner_ok else
